@@ -16,7 +16,7 @@ RULE = (
     "colour table and >= 2 colour glyphs; distinct = hash of the font bytes."
 )
 ASSUMPTIONS = ["validators written from the OpenType spec (vf/oracle/structure.py)", "maximum_color outputs are validated by the same code in C12"]
-N = {"quick": 520, "thorough": 6000}
+N = {"quick": 1560, "thorough": 12000}
 
 
 def plan(tier, seed):
